@@ -91,7 +91,11 @@ def gen_scenario(rng):
         adj["threads"] = rng.choice([2, 3])
         conns[0]["requests"][0]["gate"] = "peer"
     scn_faults = None
-    if rng.random() < 0.12:
+    peer_gated = any(r.get("gate") == "peer" for c in conns for r in c["requests"])
+    # (no fault together with a long poll: connection ids follow the order of connect(), which the schedule
+    # decides -- a fault that lands on the releasing connection before its request runs leaves the long poll
+    # waiting for good, by construction of the scenario, not through any fault of the server)
+    if rng.random() < 0.12 and not peer_gated:
         # one send() on the first connection fails with an errno that is not a plain disconnect: that
         # connection is given up -- every other one (and the workers) must carry on
         import errno
@@ -144,7 +148,8 @@ def directed(poll):
             out.append({"adj": {"threads": 2, "asyncore_use_poll": poll, "send_bytes": 1, "channel_request_lookahead": 1}, "sndbuf": 2048,
                         "faults": dict(fault),
                         "conns": [{"requests": first + [{"m": "POST", "body": 40, "expect": True, "n": 10, "k": "cl"}], "sndbuf": 2048},
-                                  {"requests": [{"n": 50, "k": "cl"}, {"n": 60, "k": "chunks", "w": 7}], "sndbuf": 2048, "pingpong": True}]})
+                                  {"requests": [{"n": 50, "k": "cl"}, {"n": 60, "k": "chunks", "w": 7}], "sndbuf": 2048, "pingpong": True,
+                                   "delay": 0.01}]})
     # a producer parked above the watermark when its connection fails in the I/O thread with an error that is
     # not a plain disconnect: it must be released (the only worker has to serve the other connection)
     for k in (2, 3, 4, 6):
